@@ -355,6 +355,9 @@ func runC08Light(c *run.Ctx) {
 	if g.P(0.6) {
 		world.AddCanonStress(g, w)
 	}
+	if g.P(0.15) {
+		world.GenIngressResources(g, w) // exposure analysis with the synthetic ingress controller among the peers
+	}
 	world.UnifySpellings(w)
 	r.Feat(w.Features...)
 	r.Feat("light_" + fam)
